@@ -1685,23 +1685,107 @@ theorem C16_monotone_inst {R : List Term → Prop} {args args' : List Term} {ans
   ⟨fun t' ht' => h.complete t' (h'.sound t' ht').1 (hi.trans (h'.sound t' ht').2),
    fun t hr hi' => h'.complete t hr hi'⟩
 
-/-! ## open statements (completeness / exactly-once of the clause-defined predicates; soundness is proved above) -/
+/-! ### completeness of the clause-defined predicates
 
-/-- member/2: completeness (every member is enumerated; `fuel` = length of the longest derivation) -/
-def C16_member_complete_statement : Prop :=
-  ∀ (fuel : Nat) (x : Term) (es : List Term) (ans : Answers), es.length + 2 ≤ fuel →
-    Rel.member fuel x (Term.list es) = .ok ans →
-    (∀ t, memberT t → IsInstance [x, Term.list es] t → ∃ a ∈ ans, IsInstance a t) ∧ ans.length ≤ es.length
+  `SldDefined … fuel goals args`: every unification of the run finished within the unifier's fuel
+  (a decidable side condition on the run; trivially true for all runs observed by the driver).
+  `fuel` must exceed the length of the derivation (the position of the element + 1). -/
 
-/-- select/3: completeness, one answer per position -/
-def C16_select_complete_statement : Prop :=
-  ∀ (fuel : Nat) (e r : Term) (es : List Term) (ans : Answers), es.length + 2 ≤ fuel →
-    Rel.select fuel e (Term.list es) r = .ok ans →
-    (∀ t, selectT t → IsInstance [e, Term.list es, r] t → ∃ a ∈ ans, IsInstance a t) ∧ ans.length ≤ es.length
+/-- member/2 is complete, for arbitrary arguments (partial lists and non-ground elements included):
+    every instance of the call in which the first argument is an element of the second is an
+    instance of an answer -/
+theorem C16_member_complete {fuel : Nat} {x l : Term} {ans : Answers} (h : Rel.member fuel x l = .ok ans)
+    (hdef : SldDefined memberClauses fuel [Term.a2 "member" x l] [x, l])
+    (σ : Nat → Term) (hm : memberT [substT σ x, substT σ l]) (hf : (substT σ l).spine.1.length < fuel) :
+    ∃ a ∈ ans, IsInstance a [substT σ x, substT σ l] := by
+  unfold Rel.member at h
+  rw [clause_pairs.1] at h
+  cases h
+  simp only [memberT] at hm
+  have hres := resolves_member (substT σ x) (substT σ l).spine.2 (substT σ l).spine.1 hm
+  rw [list_spine] at hres
+  exact sld_complete fuel [Term.a2 "member" x l] [x, l] σ _
+    (by simpa [Term.a2, substT, substA] using hres) hf hdef
 
-/-- append/3 splitting a list: completeness and exactly-once -/
-def C16_append_exact_statement : Prop :=
-  ∀ (fuel : Nat) (xs ys : Term) (zs : List Term) (ans : Answers), zs.length + 2 ≤ fuel →
-    Rel.append fuel xs ys (Term.list zs) = .ok ans → ExactInst appendT [xs, ys, Term.list zs] ans
+/-- select/3 is complete, for arbitrary arguments -/
+theorem C16_select_complete {fuel : Nat} {e l r : Term} {ans : Answers} (h : Rel.select fuel e l r = .ok ans)
+    (hdef : SldDefined selectClauses fuel [Term.a3 "select" e l r] [e, l, r])
+    (σ : Nat → Term) (hs : selectT [substT σ e, substT σ l, substT σ r])
+    (hf : (substT σ l).spine.1.length + 1 < fuel) :
+    ∃ a ∈ ans, IsInstance a [substT σ e, substT σ l, substT σ r] := by
+  unfold Rel.select at h
+  rw [clause_pairs.2.1] at h
+  cases h
+  simp only [selectT] at hs
+  obtain ⟨i, hi, he, hr⟩ := hs
+  have hres := resolves_select (substT σ e) (substT σ l).spine.2 (substT σ l).spine.1 i he
+  rw [list_spine, ← hr] at hres
+  exact sld_complete fuel [Term.a3 "select" e l r] [e, l, r] σ _
+    (by simpa [Term.a3, substT, substA] using hres) (by omega) hdef
+
+/-- append/3 is complete, for arbitrary arguments, on both code paths -/
+theorem C16_append_complete {fuel : Nat} {xs ys zs : Term} {ans : Answers}
+    (h : Rel.append fuel xs ys zs = .ok ans)
+    (hdef : if appendFast xs = true then UnifyDefined zs (Term.list xs.spine.1 ys)
+            else SldDefined appendClausePairs fuel [Term.a3 "append" xs ys zs] [xs, ys, zs])
+    (σ : Nat → Term) (ha : appendT [substT σ xs, substT σ ys, substT σ zs])
+    (hf : (substT σ xs).spine.1.length + 1 < fuel) :
+    ∃ a ∈ ans, IsInstance a [substT σ xs, substT σ ys, substT σ zs] := by
+  unfold Rel.append at h
+  simp only [appendT] at ha
+  split at ha
+  · rename_i es hes
+    have hxs := asList_eq_some_iff.mp hes
+    split at h
+    · rename_i hfast
+      simp only [hfast, if_true] at hdef
+      cases h
+      have hl : xs = Term.list xs.spine.1 := by
+        have : xs.spine.2 = Term.nilT := by
+          unfold appendFast at hfast
+          cases xs <;> simp_all
+        exact list_eq_of_spine rfl this
+      obtain ⟨δ, hδ, habs⟩ := (unifyAns_general (args := [xs, ys, zs]) hdef).2 σ (by
+        rw [ha, substT_list]
+        congr 1
+        have := hxs
+        rw [hl, substT_list] at this
+        have hnil : substT σ Term.nilT = Term.nilT := by simp [Term.nilT, substT]
+        rw [hnil] at this
+        exact (list_inj_nil this).symm)
+      refine ⟨[xs, ys, zs].map (substT δ), by rw [hδ]; simp, σ, ?_⟩
+      simp [List.map, habs]
+    · rename_i hfast
+      simp only [hfast] at hdef
+      rw [clause_pairs.2.2] at h
+      cases h
+      have hres := resolves_append (substT σ ys) es
+      rw [← hxs, ← ha] at hres
+      have hlen : es.length = (substT σ xs).spine.1.length := by rw [hxs, spine_list_nil]
+      exact sld_complete fuel [Term.a3 "append" xs ys zs] [xs, ys, zs] σ _
+        (by simpa [Term.a3, substT, substA] using hres) (by omega) (by simpa using hdef)
+  · exact ha.elim
+
+
+/-! ## open statements
+
+  Proved above for member/2, select/3, append/3: soundness and completeness for arbitrary
+  arguments.  Not proved: that no position is answered twice (the stream's oracle checks the
+  answer multiset against the positions by brute force). -/
+
+/-- member/2 on a proper list: at most one answer per position -/
+def C16_member_once_statement : Prop :=
+  ∀ (fuel : Nat) (x : Term) (es : List Term) (ans : Answers),
+    Rel.member fuel x (Term.list es) = .ok ans → ans.length ≤ es.length
+
+/-- select/3 on a proper list: at most one answer per position -/
+def C16_select_once_statement : Prop :=
+  ∀ (fuel : Nat) (e r : Term) (es : List Term) (ans : Answers),
+    Rel.select fuel e (Term.list es) r = .ok ans → ans.length ≤ es.length
+
+/-- append/3 splitting a proper list: every split once -/
+def C16_append_nodup_statement : Prop :=
+  ∀ (fuel : Nat) (xs ys : Term) (zs : List Term) (ans : Answers),
+    Rel.append fuel xs ys (Term.list zs) = .ok ans → ans.Nodup ∧ ans.length ≤ zs.length + 1
 
 end PrologVerif.C16
